@@ -362,6 +362,51 @@ def relocated_signs(M, rec, rng, g, n_runs, steps=5):
                     vsl.reverse()
 
 
+def ensemble_neutral_ramp_controls(M, rec, rng, n_runs):
+    """R3/R4 over K scenarios at once (one NumPy `Network.step`, (1, K) link states, (K,) ramp variables, an uncertain jam /
+    critical density given per scenario): with neutral controls - metering rate one, unbounded desired flow - the metered
+    ramp of either variant and the limited simplified ramp admit the same flow, scenario by scenario the flow of the ramp law."""
+    NE, CE = drive.engines(M)
+    T, tau, eta, kappa = 10 / 3600, 18 / 3600, 60.0, 40.0
+    for it in range(n_runs):
+        K = rng.choice((2, 3, 4, 6))
+        lanes, L, v_free, a, C = rng.choice((1, 2, 3)), 1.0, round(rng.uniform(90, 120), 1), round(rng.uniform(1.4, 2.4), 3), round(rng.uniform(1200, 3000), 0)
+        per = rng.choice(("both", "rho_crit", "rho_max", "none"))
+        rho_crit = np.array([round(rng.uniform(26.0, 39.0), 1) for _ in range(K)]) if per in ("both", "rho_crit") else round(rng.uniform(26.0, 39.0), 1)
+        rho_max = np.array([round(rng.uniform(160.0, 195.0), 1) for _ in range(K)]) if per in ("both", "rho_max") else round(rng.uniform(160.0, 195.0), 1)
+        rc_, rm_ = np.broadcast_to(np.asarray(rho_crit, float), (K,)), np.broadcast_to(np.asarray(rho_max, float), (K,))
+        rho0 = np.array([[rng.uniform(rc_[k_], rm_[k_]) if rng.random() < 0.7 else rng.uniform(5.0, rc_[k_]) for k_ in range(K)]])
+        v0 = np.array([[rng.uniform(5.0, v_free) for _ in range(K)]])
+        w0 = np.array([rng.uniform(0.0, 60.0) for _ in range(K)])
+        d0 = np.array([rng.uniform(500.0, 3000.0) for _ in range(K)])
+
+        def run_(ramp, controls):
+            n1, n2 = M.Node(name="N1"), M.Node(name="N2")
+            link = M.Link(1, lanes, L, (rho_max.copy() if isinstance(rho_max, np.ndarray) else rho_max), (rho_crit.copy() if isinstance(rho_crit, np.ndarray) else rho_crit),
+                          v_free, a, name="L")
+            net = M.Network().add_path((n1, link, n2), origin=ramp, destination=M.Destination(name="D"))
+            net.step(init_conditions={link: {"rho": rho0.copy(), "v": v0.copy()}, ramp: dict({"w": w0.copy(), "d": d0.copy()}, **controls)},
+                     engine=NE(), T=T, tau=tau, eta=eta, kappa=kappa)
+            return np.asarray(ramp.next_states["w"], float).reshape(-1), np.asarray(link.next_states["rho"], float).reshape(-1)
+
+        try:
+            res = {"metered[out], rate one": run_(M.MeteredOnRamp(C, "out", name="O"), {"r": np.ones(K)}),
+                   "metered[in], rate one": run_(M.MeteredOnRamp(C, "in", name="O"), {"r": np.ones(K)}),
+                   "simplified[limited], unbounded desired flow": run_(M.SimplifiedMeteredOnRamp(C, "limited", name="O"), {"q": np.full(K, np.inf)})}
+        except Exception as e:
+            rec.violation(f"{PROP}:ensemble of K scenarios with neutral ramp controls: stepping raised {type(e).__name__}", {"exception": repr(e)[:300], "per_scenario": per})
+            continue
+        rec.count("ensemble_neutral_control_runs")
+        rec.seen("relations", ("R3/R4-neutral-ramp-controls-over-K-scenarios", "numpy"))
+        q_exp = np.array([min(d0[k_] + w0[k_] / T, C * min(1.0, (rm_[k_] - rho0[0, k_]) / (rm_[k_] - rc_[k_]))) for k_ in range(K)])
+        w_exp = w0 + T * (d0 - q_exp)
+        for tag, (w_, rho_) in res.items():
+            if w_.shape != (K,) or not np.allclose(w_, w_exp, rtol=1e-10, atol=1e-9):
+                rec.violation(f"{PROP}:R3/R4 over K scenarios:numpy: with neutral controls the {tag.split(',')[0]} ramp does not admit the flow of the ramp law in every scenario",
+                              {"per_scenario_parameters": per, "next_queues": w_.tolist(), "expected": w_exp.tolist(), "rho_crit": rc_.tolist(), "rho_max": rm_.tolist()})
+                break
+
+
 def dec_cveq(kind, args, kwargs, res, rec):
     names = ("rho", "v_ctrl", "vsl", "alpha", "v_free", "rho_crit", "a")
     a = dict(zip(names, args))
@@ -432,6 +477,7 @@ def run(M, rec, tier, seed, k, n):
         relations(M, rec, rng, 160 if tier == "quick" else 1200, symvals)
         multistep_neutral(M, rec, rng, G.NetGen(rng), 40 if tier == "quick" else 300)
         relocated_signs(M, rec, rng, G.NetGen(rng), 40 if tier == "quick" else 300)
+        ensemble_neutral_ramp_controls(M, rec, rng, 40 if tier == "quick" else 400)
     finally:
         pm.uninstall()
     rec.sample({"relations": sorted(rec.cover.get("relations", []))})
